@@ -135,7 +135,9 @@ GRAD = {False: fedjax.grad(per_example_loss),
 
 def client_arrays(client, d):
   rows = np.asarray(client['rows'], np.float64).reshape((-1, d + 1))
-  return rows[:, :d] / 16.0, rows[:, d] / 8.0
+  # ('yexp': targets of this client scaled by a power of two -- finite values
+  # whose squared norm does not fit the parameter dtype)
+  return rows[:, :d] / 16.0, rows[:, d] / 8.0 * 2.0 ** client.get('yexp', 0)
 
 
 def make_dataset(client, d, domains=False):
@@ -749,8 +751,6 @@ def run_mime(case):
     state, diag = alg.apply(state, clients)
     check_diag_keys(diag, clients, 'mimelite')
     new = to64(state.params)
-    if all_finite(new):
-      guard_bounded(new, 'mimelite')
     # float64 reference of this round, restarted from the observed params
     scale = 1.0 + max_abs(old)
     acc = {key: np.zeros_like(v) for key, v in old.items()}
@@ -786,6 +786,8 @@ def run_mime(case):
     require(applied <= slr * bound * (1 + 1e-5) + slack, 'mimelite:applied_update_norm_exceeds_bound',
             f'round {r}: |params_old - params_new| = {applied!r} > server_lr {slr} * bound {bound!r} '
             f'(+ slack {slack:.2e})')
+    # (only now: a bounded step per round is the property, not an assumption)
+    guard_bounded(new, 'mimelite')
     tol = rel * scale
     require(c01.close(new, want, tol), 'mimelite:update_differs_from_mean_of_clipped_client_deltas',
             lambda: f'round {r}: differ by {c01.diff(new, want):.3e} (tol {tol:.1e}); '
@@ -808,6 +810,9 @@ def mime_labels(case):
         'server_lr:%g' % MIME_SERVER_LR[hp['slr']], 'rounds:%d' % len(case['rounds'])]
   if any(len(rnd) >= 2 for rnd in case['rounds']):
     ls.append('multi_client_round')
+  for c in case['pool']:
+    if c.get('yexp'):
+      ls.append('client_update_of_magnitude_2^%d' % c['yexp'])
   return ls + returning_labels(case)
 
 
@@ -1099,6 +1104,13 @@ def _mime_free(draw):
 def mime_cases(draw, tier):
   case = {'alg': 'mimelite', 'hp': draw_hp(draw, tier, MIME_PRESETS, _mime_free)}
   case.update(draw_common(draw, tier))
+  # A client whose targets -- and hence update -- are finite but enormous: the
+  # squared norm of the update overflows float32 (2^68 and up) or just does not
+  # (2^40 .. 2^64).  Only with base optimizers that keep no squared gradients
+  # (Adam's second moment would overflow, which the property does not cover).
+  if MIME_OPT[case['hp']['opt']]['name'] != 'adam' and draw(st.sampled_from([0, 0, 0, 1])):
+    full = [i for i, c in enumerate(case['pool']) if c['rows']]
+    case['pool'][draw(st.sampled_from(full))]['yexp'] = draw(st.sampled_from([68, 72, 64, 40, 60, 80, 100]))
   return case
 
 
